@@ -68,8 +68,36 @@ func concParam(p string, quoted bool) string {
 	if !ok {
 		return p // a parameter without a value (no-default-alpn)
 	}
+	if strings.Contains(v, " ") {
+		q = `"` // a value with spaces is always quoted
+	}
 	return k + "=" + q + v + q
 }
+
+// splitParams splits a stored SvcParams string at the spaces that are not inside a quoted value.
+func splitParams(v string) []string {
+	var out []string
+	cur, inq := "", false
+	for _, ch := range v {
+		switch {
+		case ch == '"':
+			inq = !inq
+			cur += string(ch)
+		case ch == ' ' && !inq:
+			if cur != "" {
+				out = append(out, cur)
+			}
+			cur = ""
+		default:
+			cur += string(ch)
+		}
+	}
+	if cur != "" {
+		out = append(out, cur)
+	}
+	return out
+}
+
 func absParam(p string) string {
 	k, v, ok := strings.Cut(p, "=")
 	if !ok {
@@ -105,6 +133,7 @@ type fakeCF struct {
 	nList     int
 	nPatch    int
 	fail      pubFail
+	recs3     []*fakeRec // zone z3: a few records, none of them a requested name
 	softFail  bool
 	omitEmpty bool
 	srv       *httptest.Server
@@ -132,6 +161,9 @@ func newFakeCF(init []pubRec, quoted bool) *fakeCF {
 		}
 	}
 	f.recs = slots
+	for i := 0; i < 5; i++ {
+		f.recs3 = append(f.recs3, &fakeRec{ID: fmt.Sprintf("z3-%d", i), Name: fmt.Sprintf("other%d.z3.example", i), Value: `alpn="h2"`, Prio: 1, Tgt: "."})
+	}
 	f.srv = httptest.NewUnstartedServer(http.HandlerFunc(f.handle))
 	f.srv.Listener = resetListener{f.srv.Listener} // one server per case: closing with a reset leaves no TIME_WAIT entries behind
 	f.srv.Start()
@@ -160,6 +192,9 @@ func (f *fakeCF) handle(w http.ResponseWriter, req *http.Request) {
 		if req.Form.Get("name") == "z1.example" {
 			res = append(res, map[string]string{"id": "zone-z1", "name": "z1.example"})
 		}
+		if req.Form.Get("name") == "z3.example" { // another zone of the account; it holds other records only
+			res = append(res, map[string]string{"id": "zone-z3", "name": "z3.example"})
+		}
 		json.NewEncoder(w).Encode(map[string]any{"success": true, "errors": []any{}, "result": res,
 			"result_info": map[string]int{"page": 1, "per_page": 20, "count": len(res), "total_count": len(res), "total_pages": 1}})
 	case req.Method == "GET" && strings.HasSuffix(p, "/dns_records"):
@@ -177,8 +212,12 @@ func (f *fakeCF) handle(w http.ResponseWriter, req *http.Request) {
 			page = 1
 		}
 		var res []map[string]any
-		for i := (page - 1) * per; i < len(f.recs) && i < page*per; i++ {
-			r := f.recs[i]
+		recs := f.recs
+		if strings.Contains(p, "/zone-z3/") {
+			recs = f.recs3
+		}
+		for i := (page - 1) * per; i < len(recs) && i < page*per; i++ {
+			r := recs[i]
 			data := map[string]any{"priority": r.Prio, "target": r.Tgt, "value": r.Value}
 			if r.Value == "" && f.omitEmpty { // the API leaves out members that are empty
 				delete(data, "value")
@@ -187,7 +226,7 @@ func (f *fakeCF) handle(w http.ResponseWriter, req *http.Request) {
 		}
 		// same semantics as the repository's own fake: count = number of matching records
 		json.NewEncoder(w).Encode(map[string]any{"success": true, "errors": []any{}, "result": res,
-			"result_info": map[string]int{"page": page, "per_page": per, "count": len(f.recs), "total_count": len(f.recs), "total_pages": (len(f.recs) + per - 1) / per}})
+			"result_info": map[string]int{"page": page, "per_page": per, "count": len(recs), "total_count": len(recs), "total_pages": (len(recs) + per - 1) / per}})
 	case req.Method == "PATCH" && strings.Contains(p, "/dns_records/"):
 		f.nPatch++
 		id := p[strings.LastIndex(p, "/")+1:]
@@ -290,7 +329,7 @@ func replayPubCase(c *pubCase, idx int) (diff string) {
 				}
 			}
 			var abs []string
-			for _, p := range strings.Fields(r.Value) {
+			for _, p := range splitParams(r.Value) {
 				abs = append(abs, absParam(p))
 			}
 			if fmt.Sprint(abs) != fmt.Sprint(append([]string{}, want.Params...)) {
